@@ -96,6 +96,8 @@ pub fn rfc4180(text: &str) -> Option<Vec<Vec<String>>> {
   let mut recs: Vec<Vec<String>> = vec![];
   let mut rec: Vec<String> = vec![];
   let mut i = 0;
+  RECQ.with(|r| r.borrow_mut().clear());
+  QUOTED.with(|q| q.set(false));
   if b.is_empty() {
     return Some(recs);
   }
@@ -125,6 +127,7 @@ pub fn rfc4180(text: &str) -> Option<Vec<Vec<String>>> {
         return None; // text after the closing quote
       }
       rec.push(f);
+      QUOTED.with(|q| q.set(true));
     } else {
       while i < b.len() && b[i] != ',' && b[i] != '\n' && b[i] != '\r' {
         if b[i] == '"' {
@@ -140,6 +143,7 @@ pub fn rfc4180(text: &str) -> Option<Vec<Vec<String>>> {
     }
     if i >= b.len() {
       recs.push(rec);
+      RECQ.with(|r| r.borrow_mut().push(QUOTED.with(|q| q.replace(false))));
       return finish(recs, text);
     }
     if b[i] == ',' {
@@ -148,6 +152,7 @@ pub fn rfc4180(text: &str) -> Option<Vec<Vec<String>>> {
         // trailing comma: one more (empty) field
         rec.push(String::new());
         recs.push(rec);
+        RECQ.with(|r| r.borrow_mut().push(QUOTED.with(|q| q.replace(false))));
         return finish(recs, text);
       }
       continue;
@@ -155,10 +160,15 @@ pub fn rfc4180(text: &str) -> Option<Vec<Vec<String>>> {
     // line break
     i += if b[i] == '\r' { 2 } else { 1 };
     recs.push(std::mem::take(&mut rec));
+    RECQ.with(|r| r.borrow_mut().push(QUOTED.with(|q| q.replace(false))));
     if i >= b.len() {
       return finish(recs, text);
     }
   }
+}
+thread_local! {
+  static QUOTED: std::cell::Cell<bool> = std::cell::Cell::new(false);
+  static RECQ: std::cell::RefCell<Vec<bool>> = std::cell::RefCell::new(vec![]);
 }
 fn finish(recs: Vec<Vec<String>>, text: &str) -> Option<Vec<Vec<String>>> {
   // a blank line (a record consisting of one empty unquoted field) is not defined by RFC 4180
@@ -166,14 +176,11 @@ fn finish(recs: Vec<Vec<String>>, text: &str) -> Option<Vec<Vec<String>>> {
   if text.ends_with('\n') {
     lines.pop();
   }
-  let _ = &recs;
-  // blank physical lines outside quotes: detect on the record level (single empty field that
-  // was not quoted) - approximated by: some record equals [""] and the text has no `""` literal
-  if recs.iter().any(|r| r.len() == 1 && r[0].is_empty()) && !text.contains("\"\"") {
+  // a blank physical line outside quotes (a record of one empty UNQUOTED field) is left out: readers disagree on
+  // it. A record whose only field is a QUOTED empty field (`""` on a line of its own) is an ordinary record.
+  let quoted = RECQ.with(|r| std::mem::take(&mut *r.borrow_mut()));
+  if recs.iter().enumerate().any(|(k, r)| r.len() == 1 && r[0].is_empty() && !quoted.get(k).copied().unwrap_or(false)) {
     return None;
-  }
-  if recs.iter().any(|r| r.len() == 1 && r[0].is_empty()) {
-    return None; // also leave the quoted-empty single field record out: readers disagree on it
   }
   Some(recs)
 }
